@@ -137,7 +137,14 @@ def run(item):
         # transcribe, then replace the method object, then save: the transcription still attached to the OLD method must not get in the way
         from ..extract import make_method
         with quiet():
-            b.ocp._transcribed
+            try:
+                b.ocp._transcribed
+            except Exception as e:
+                from ..runner import DEGENERATE_REJECTIONS
+                from ..sx2smt import Unsupported
+                if item.get('family') == 'random' and any(m_ in str(e) for m_ in DEGENERATE_REJECTIONS):
+                    raise Unsupported('random specification has a decision-free constraint instance, rejected by rockit')
+                raise
             cfg = copy.deepcopy(cfg)
             cfg.N = cfg.N + 1
             b.ocp.method(make_method(cfg))
